@@ -113,6 +113,11 @@ template <class E> struct VecRun {
             const size_t want = R.uarg("n") % 14; Val x(R.vid(), R.mm); post.resize(want, R.vid());
             R.kind = want > n ? "resize-grow" : want < n ? "resize-shrink" : "resize-same";
             R.call([&] { a->resize(want, x.x); }); after(post, want > n ? APPEND : TRUNC);
+        } else if (o == "resize_alias") {
+            // the fill value is an element of the vector itself, and growing may reallocate (std::vector must cope; so must this one)
+            if (!n) return skip(); const size_t i = R.uarg("i") % n, want = n + 1 + R.uarg("n") % 12; post.resize(want, ma[i]);
+            R.kind = want > a->capacity() ? "resize_alias-reallocating" : "resize_alias-in-capacity";
+            R.call([&] { a->resize(want, (*a)[i]); }); after(post, APPEND);
         } else if (o == "resize_default") {
             const size_t want = R.uarg("n") % 14; post.resize(want, 0);
             R.kind = want > n ? "resize_default-grow" : want < n ? "resize_default-shrink" : "resize_default-same";
